@@ -728,8 +728,14 @@ ResetState ==
 
 IsImageSrc(ev) == Has(ev, "src") /\ ev.src = "image" /\ ~Has(ev, "edits") /\ ~Has(ev, "trunc") /\ ~Has(ev, "append")
 
-\* round-trip context: the input is the image that the current, accepted configuration just wrote
-RtCtx(ev) == IsImageSrc(ev) /\ ~IsNone(bld.cfg) /\ ~IsNone(wr) /\ IsOk(wr.res) /\ Accepts(bld.cfg)
+\* round-trip context: the input is the image that the current configuration just wrote.  "Every packet the builder
+\* accepts ... parses back with the same fields" is about what the BUILDER accepted (the write succeeded), whether
+\* or not the configuration is representable: a builder that serialises an unrepresentable configuration is judged
+\* on the fields that come back.  Excluded: totals above 65536 words (the recorded finding D12, judged by C16) and
+\* an FCI in the wrong kind of feedback packet (the view has no such FCI to compare with).
+RtCtx(ev) == /\ IsImageSrc(ev) /\ ~IsNone(bld.cfg) /\ ~IsNone(wr) /\ IsOk(wr.res)
+             /\ ~TooBig(bld.cfg)
+             /\ bld.cfg.kind \in {"tfb", "pfb"} => FciRules(bld.cfg.kind, bld.cfg.fci) = {}
 
 \* a raw / third-party member that impersonates a built-in packet type need not parse as that type
 \* (e.g. UnknownBuilder(type 200) with a 4-byte body is not a sender report): the parse-back clause
